@@ -303,12 +303,30 @@ func (w *wslot) ensure() error {
 			return nil
 		}
 	}
-	p, err := startProc(w.pl.scratch)
-	if err != nil {
-		return err
+	// start a worker and shake hands with it; a worker that cannot even answer
+	// a no-op (fork failure, address-space limit too small for the Go runtime
+	// on this machine, ...) is a HARNESS problem and must never be attributed
+	// to a case
+	var lastErr error
+	for attempt := 0; attempt < 6; attempt++ {
+		if attempt > 0 {
+			time.Sleep(time.Duration(attempt) * 2 * time.Second)
+		}
+		p, err := startProc(w.pl.scratch)
+		if err != nil {
+			lastErr = err
+			continue
+		}
+		_, f := p.do(request{ID: atomic.AddInt64(&w.pl.nextID, 1)})
+		if f != nil {
+			lastErr = fmt.Errorf("worker did not answer the handshake: %s", tail(strings.TrimSpace(f.stderr), 200))
+			p.kill()
+			continue
+		}
+		w.p = p
+		return nil
 	}
-	w.p = p
-	return nil
+	return lastErr
 }
 
 func (w *wslot) restart() {
@@ -336,6 +354,7 @@ func (pl *pool) absorb(sp *space, rp *reply) {
 		pl.mu.Lock()
 		pl.harness = append(pl.harness, rp.Err)
 		pl.mu.Unlock()
+		r.Cap("harness error in space " + sp.Name + " (a batch was not run): " + rp.Err)
 		return
 	}
 	r.AddEvals(rp.Evals)
